@@ -321,6 +321,32 @@ class C01Monitor(jobsim.Monitor):
                 sc = float(np.linalg.norm(Kd) + np.linalg.norm(g)) + 1e-12
                 if err > 2e-6 * sc + 1e-9:
                     self.V("fd-tangent", f"matrix(field, pressure=p) of item {k} is not the derivative of vector(field, pressure=p) (err {err:.3e}, scale {sc:.3e})", site="SolidBodyPressure.keyword")
+            # the forces requested for ANOTHER container (a copy holding another state - a trial state,
+            # the `field + dx` of a hand-written loop), then the matrix without a field: it is the
+            # tangent at the state the forces were assembled for
+            if not kw:
+                x_here = fk3.vector()
+                if self.nprobe % 2:
+                    x_there = np.zeros_like(x_here)
+                else:
+                    x_there = x_here + 0.05 * xs * self.rng.normal(size=x_here.size)
+                fk3.set_vector(x_there)
+                other = item.field.copy()
+                fk3.set_vector(x_here)
+                try:
+                    item.assemble.vector(field=other)
+                    K_a = item.assemble.matrix().toarray()
+                except TypeError:
+                    K_a = None
+                if K_a is not None:
+                    fk6, _ = self.make_fork(eng, c, it["x"])
+                    fk6.set_vector(x_there)
+                    fk6.items[k].assemble.vector(field=fk6.items[k].field)
+                    K_cold = fk6.items[k].assemble.matrix().toarray()
+                    ok, rel = close_exact_twin(K_a, K_cold, rtol=1e-10, atol=1e-11 * (float(np.abs(K_cold).max()) + 1e-300))
+                    if not ok:
+                        self.V("call-order", f"vector(field=<another container>) followed by matrix() of item {k} ({spec['type']}) is not the matrix at the state of that container (rel {rel:.2e})", site=f"{spec['type']}.matrix-after-vector-on-other-container")
+                    self.log.count("other-container-checked")
             self.log.count("call-order-checked")
         # parallel knob -----------------------------------------------------------------------------
         if self.doc["c01"].get("parallel") and self.nprobe % 2 == 0:
